@@ -245,6 +245,9 @@ func makeTargets(conns []connPlan) (targets []target, ports []uint16, harnessErr
 		case tkRejectIP:
 			ports[i] = uint16(3000 + i)
 			targets[i].addr = fmt.Sprintf("%s:%d", rejectIP, ports[i])
+		case tkFakeErrno:
+			ports[i] = uint16(4000 + i) // never dialled for real: the fake outbound client fails by itself
+			targets[i].addr = fmt.Sprintf("%s:%d", ip, ports[i])
 		}
 		used[ports[i]] = true
 	}
@@ -635,6 +638,10 @@ func runConn(c casePlan, i int, frontAddr string, tg target, r *connResult) {
 			r.labels = append(r.labels, "http-502")
 		}
 		r.labels = append(r.labels, "failure-reply")
+		if p.Target == tkFakeErrno {
+			r.labels = append(r.labels, "failed-dial-reported:"+p.Errno)
+			r.nt = true
+		}
 		return
 	}
 	if derr != nil {
